@@ -8,7 +8,7 @@ import glob, json, os, re, subprocess, sys, tempfile, shutil
 from concurrent.futures import ThreadPoolExecutor
 ENV = dict(os.environ, GOFLAGS="-mod=mod", GOPROXY="off", GOSUMDB="off", GOTOOLCHAIN="local")
 V = os.path.dirname(os.path.dirname(os.path.abspath(__file__)))
-CT = ["schema/verif_contracts.go", "schema/verif_instances.go", "atp/verif_contracts.go", "cmd/arcaflow-codegen/verif_contracts.go"]
+CT = ["schema/verif_contracts.go", "schema/verif_instances.go", "schema/verif_harness.go", "atp/verif_contracts.go", "atp/verif_harness.go", "cmd/arcaflow-codegen/verif_contracts.go"]
 
 def sh(cmd, **kw):
     p = subprocess.run(cmd, env=ENV, stdout=subprocess.PIPE, stderr=subprocess.STDOUT, **kw)
